@@ -12,6 +12,43 @@ use std::collections::BTreeMap;
 
 const PID: &str = "C14";
 
+/// Buffers far beyond the protocol maximum whose bit count sits around 2^16 and 2^17 (a 16-bit
+/// "remaining bits" would wrap), and buffers holding 2^8 or 2^16 (+ a few) elements of the element
+/// widths that occur in the variable-length messages (6-bit characters, bytes, 30- and 32-bit list
+/// entries) behind headers of 38 .. ~560 bits (an element *count* kept in 8 or 16 bits wraps
+/// there): what is reported must still equal the bits. Shared by the message-level checks, each
+/// with its own ownership mask. std / alloc builds only.
+pub fn wrap_probe(ctx: &Ctx, rep: &mut Report, pid: &str, mask: u32, r: &mut crate::rng::Rng) {
+    if crate::mon::is_noalloc() {
+        return;
+    }
+    let mut item = 5000u64;
+    for &t in SUPPORTED.iter() {
+        if !ctx.mine(item) {
+            item += 1;
+            continue;
+        }
+        item += 1;
+        for bytes in (8185usize..=8235).chain(16_377..=16_430) {
+            let mut bits = Bits::random(bytes * 8, r);
+            bits.put(0, 6, t as u64);
+            let v = gen::run_message_mask(rep, pid, mask, &bits, Via::Raw, "wrap-length");
+            rep.class(format!("t{}|wrap-length|{}", t, v.outcome));
+        }
+        for w in [6usize, 8, 30, 32] {
+            for k in [8u32, 16] {
+                let centre = (40 + (1usize << k) * w) / 8;
+                for bytes in (centre - 6)..(centre + 70) {
+                    let mut bits = Bits::random(bytes * 8, r);
+                    bits.put(0, 6, t as u64);
+                    let v = gen::run_message_mask(rep, pid, mask, &bits, Via::Raw, "wrap-count");
+                    rep.class(format!("t{}|wrap-count|w{}|2^{}|{}", t, w, k, v.outcome));
+                }
+            }
+        }
+    }
+}
+
 /// Buffers of 2^31 and 2^32 bits (and a little more) handed to `messages::parse`: a message of a
 /// type whose decoding reads a bounded prefix, followed by zeros. The reference model gives the
 /// same field list for such a type at 2^17 bits and at 2^17 + 64 bits (checked here); that list is
@@ -190,38 +227,7 @@ pub fn run(ctx: &Ctx, rep: &mut Report) {
             rep.count("legal-branch");
         }
     }
-    // buffers far beyond the protocol maximum whose bit count sits around 2^16 and 2^17
-    // (a 16-bit "remaining bits" would wrap): what is reported must still equal the bits
-    if !crate::mon::is_noalloc() {
-        for &t in SUPPORTED.iter() {
-            if !ctx.mine(item) {
-                item += 1;
-                continue;
-            }
-            item += 1;
-            for bytes in (8185usize..=8235).chain(16_377..=16_430) {
-                let mut bits = Bits::random(bytes * 8, &mut r);
-                bits.put(0, 6, t as u64);
-                let v = gen::run_message_mask(rep, PID, mask, &bits, Via::Raw, "wrap-length");
-                rep.class(format!("t{}|wrap-length|{}", t, v.outcome));
-            }
-            // ... and buffers holding 2^8 or 2^16 (+ a few) elements of the element widths that
-            // occur in the variable-length messages (6-bit characters, bytes, 30- and 32-bit list
-            // entries) behind a 38/40-bit header: an element *count* kept in 8 or 16 bits wraps here
-            for w in [6usize, 8, 30, 32] {
-                for k in [8u32, 16] {
-                    let centre = (40 + (1usize << k) * w) / 8;
-                    let span = if ctx.thorough() { 40 } else { 24 };
-                    for bytes in (centre - 6)..(centre + span) {
-                        let mut bits = Bits::random(bytes * 8, &mut r);
-                        bits.put(0, 6, t as u64);
-                        let v = gen::run_message_mask(rep, PID, mask, &bits, Via::Raw, "wrap-count");
-                        rep.class(format!("t{}|wrap-count|w{}|2^{}|{}", t, w, k, v.outcome));
-                    }
-                }
-            }
-        }
-    }
+    wrap_probe(ctx, rep, PID, mask, &mut r);
     giant_buffer_probe(ctx, rep, PID, mask, &mut r);
     let mut th = J::obj();
     for (k, v) in thresholds {
